@@ -7,6 +7,7 @@
 -/
 import Model.Ldl
 import Cas.Real
+import GenM.Util
 import Mathlib.Algebra.BigOperators.Intervals
 import Mathlib.Algebra.BigOperators.Field
 import Mathlib.Tactic.Ring
@@ -158,6 +159,36 @@ theorem reconstruct (hs : ∀ i j, P i j = P j i) (hp : ∀ j, j < n → Df n P 
   · exact key i j h hi
   · rw [hs i j, ← key j i h hj]
     exact sum_congr rfl fun k _ => by ring
+
+/-! ## the every-size model IS the translated program at the translated sizes
+     (`Gen.util.ldlN` is regenerated from cyecca/util.py on every run) -/
+
+/-- an N × N matrix of a translated program as the model's index function -/
+def ext {N : ℕ} (P : Fin N → Fin N → ℝ) : ℕ → ℕ → ℝ :=
+  fun i j => if h : i < N ∧ j < N then P ⟨i, h.1⟩ ⟨j, h.2⟩ else 0
+
+open Gen in
+macro "ldl_link" : tactic =>
+  `(tactic| (simp [C10G.Lf, C10G.Df, ldl, run, step, subLoop, ext, cas_defs, cas_real] <;> (try ring)))
+
+theorem gen_ldl2_L (P : Fin 2 → Fin 2 → ℝ) (i j : Fin 2) :
+    Gen.util.ldl2.L_mat P i j = Lf 2 (ext P) i j := by
+  fin_cases i <;> fin_cases j <;> ldl_link
+theorem gen_ldl2_D (P : Fin 2 → Fin 2 → ℝ) (j : Fin 2) :
+    Gen.util.ldl2.D_mat P j j = Df 2 (ext P) j := by
+  fin_cases j <;> ldl_link
+theorem gen_ldl3_L (P : Fin 3 → Fin 3 → ℝ) (i j : Fin 3) :
+    Gen.util.ldl3.L_mat P i j = Lf 3 (ext P) i j := by
+  fin_cases i <;> fin_cases j <;> ldl_link
+theorem gen_ldl3_D (P : Fin 3 → Fin 3 → ℝ) (j : Fin 3) :
+    Gen.util.ldl3.D_mat P j j = Df 3 (ext P) j := by
+  fin_cases j <;> ldl_link
+theorem gen_ldl4_L (P : Fin 4 → Fin 4 → ℝ) (i j : Fin 4) :
+    Gen.util.ldl4.L_mat P i j = Lf 4 (ext P) i j := by
+  fin_cases i <;> fin_cases j <;> ldl_link
+theorem gen_ldl4_D (P : Fin 4 → Fin 4 → ℝ) (j : Fin 4) :
+    Gen.util.ldl4.D_mat P j j = Df 4 (ext P) j := by
+  fin_cases j <;> ldl_link
 
 /-! ## non-vacuity: a concrete 2 × 2 instance -/
 example : Df 2 (fun i j => if i = j then 2 else 1) 1 = 3 / 2 := by
